@@ -6,10 +6,12 @@ from pyvc.unit import unit
 
 DEX = "androguard/core/dex/__init__.py"
 META = {
-    "technique": 'contract-based deductive verification: symbolic execution of the real functions against sidecar contracts (z3/cvc5) for the proved units; bounded contract evaluation (enumerated scope / independent writer) for the rest',
+    "technique": 'contract-based deductive verification: symbolic execution of the real functions against sidecar contracts (z3/cvc5) for the proved units, inductive loop invariants and termination variants on the real loops (unbounded in length and iteration count); bounded contract evaluation (enumerated scope / independent writer) for the rest',
     "level": "other",
     "partial": True,
-    "level_text": "Proof: read_null_terminated_string on streams of 0..257 symbolic bytes (every content, hence every position of the "
+    "level_text": "Loop contract (unbounded, with termination variant): read_null_terminated_string on a stream of any length and "
+                  "content returns exactly the bytes from the start position to the first NUL (or to the end of the data) and "
+                  "leaves the stream just behind the NUL. Proof: read_null_terminated_string on streams of 0..257 symbolic bytes (every content, hence every position of the "
                   "first NUL relative to the 128-byte chunk grid, and no NUL at all) from start positions 0 and 5 returns exactly the "
                   "bytes before the first NUL and leaves the stream just behind it; StringDataItem hands exactly those bytes to the "
                   "MUTF-8 decoder and returns its result unchanged; ClassManager.get_raw_string follows string_ids[idx] -> offset -> "
